@@ -1389,8 +1389,11 @@ class process_char:
             yield "HT-moves-right-within-the-line", both(x <= s.term_cursor[0], s.term_cursor[0] <= old.width - 1, implies(x < old.width - 1, x < s.term_cursor[0]),
                                                          either(s.term_cursor[0] == old.width - 1, tabstop_at(old, s.term_cursor[0])), pframe(old, s, *CURSOR_FIELDS, "is_rotten_cursor"))
         elif k["bs"]:
-            yield "BS-moves-one-column-left-and-stops-at-the-margin", both(
-                implies(x > 0, _state_is(old, s, G.M_set_cursor(old, x - 1, y), CURSOR_FIELDS)), implies(x <= 0, pframe(old, s)))
+            # (a BS that moves also cancels a pending wrap, as on every terminal of the family: DEC STD 070, xterm, Linux --
+            #  until fix: commit 95e9344 the flag stayed set and the next character was wrapped onto the next line)
+            yield "BS-moves-one-column-left-cancels-a-pending-wrap-and-stops-at-the-margin", both(
+                implies(x > 0, _state_is(old, s, G.M_set_cursor(G.upd(old, is_rotten_cursor=False), x - 1, y), (*CURSOR_FIELDS, "is_rotten_cursor"))),
+                implies(x <= 0, pframe(old, s)))
         elif k["bel"]:
             yield "BEL-rings-the-bell-and-nothing-else", both(widget_calls_are(old, [("beep", {})]), pframe(old, s))
         elif k["can"]:
